@@ -22,10 +22,15 @@ const (
 	formECS
 	formECSCookie
 	formCookieECS
+	// the OPT record (with the client-subnet option) is NOT the last record of the additional section: another
+	// record follows it (RFC 6891 6.1.1 allows the OPT anywhere in the section; TSIG must even come after it)
+	formECSThenRR
+	// the OPT record without options is followed by another record
+	formEmptyThenRR
 	nForms
 )
 
-var formNames = [nForms]string{"noedns", "edns", "cookie", "opt65001", "ecs", "ecs+cookie", "cookie+ecs"}
+var formNames = [nForms]string{"noedns", "edns", "cookie", "opt65001", "ecs", "ecs+cookie", "cookie+ecs", "ecs+rr-after-opt", "edns+rr-after-opt"}
 
 type ecsVar struct {
 	fam   uint16
@@ -82,6 +87,8 @@ func (q *query) formID() string {
 			s = "ecs" + q.ecs.id() + "+cookie"
 		case formCookieECS:
 			s = "cookie+ecs" + q.ecs.id()
+		case formECSThenRR:
+			s = "ecs" + q.ecs.id() + "+rr-after-opt"
 		}
 	}
 	if q.version != 0 {
@@ -231,10 +238,11 @@ func buildQueries(vars []*ecsVar, thorough bool) []*query {
 	for f := formNoEDNS; f <= formUnknown; f++ {
 		forms = append(forms, fe{f, nil})
 	}
-	for _, f := range []ednsForm{formECS, formECSCookie, formCookieECS} {
+	forms = append(forms, fe{formEmptyThenRR, nil})
+	for _, f := range []ednsForm{formECS, formECSCookie, formCookieECS, formECSThenRR} {
 		for _, v := range vars {
-			// A cookie next to the ECS option does not take part in any lookup:
-			// the quick tier combines it only with the variants of the first
+			// A cookie next to the ECS option (or a record after the OPT) does not take part in
+			// any lookup: the quick tier combines it only with the variants of the first
 			// base address of each family (every source length).
 			if !thorough && f != formECS && !v.first {
 				continue
@@ -297,8 +305,13 @@ func (q *query) wire() []byte {
 			o.Option = append(o.Option, ecs, cookie)
 		case formCookieECS:
 			o.Option = append(o.Option, cookie, ecs)
+		case formECSThenRR:
+			o.Option = append(o.Option, ecs)
 		}
 		m.Extra = append(m.Extra, o)
+		if q.form == formECSThenRR || q.form == formEmptyThenRR {
+			m.Extra = append(m.Extra, &dns.A{Hdr: dns.RR_Header{Name: "after-opt.invalid.", Rrtype: dns.TypeA, Class: dns.ClassINET, Ttl: 0}, A: net.IPv4(192, 0, 2, 250)})
+		}
 	}
 	b, err := m.Pack()
 	if err != nil {
